@@ -209,8 +209,12 @@ int main(int argc, char** argv) {
   int violations = 0;
   if (mode == "enum") {
     bool stop = false;
+    // optional sharding of the enumeration: VERIF_ENUM_SHARD=k/n runs every n-th case starting at k
+    unsigned long shard_k = 0, shard_n = 1, counter = 0;
+    if (const char* e = getenv("VERIF_ENUM_SHARD")) { sscanf(e, "%lu/%lu", &shard_k, &shard_n); if (!shard_n) shard_n = 1; }
     enumerate([&](const std::vector<uint8_t>& b) {
       if (stop) return;
+      if ((counter++ % shard_n) != shard_k) return;
       std::string sig, msg, sample;
       if (guarded(b.data(), b.size(), &sig, &msg, &sample)) {
         violations++; stop = true; st.frozen = true;
